@@ -293,8 +293,12 @@ pub struct SinkState {
     /// number of bytes accepted after the first hard fault fired
     pub accepted_after_fault: usize,
     pub log: u64,
-    /// when set, the sink keeps only the length and a running hash (big outputs)
-    pub max_keep: usize,
+    /// when set, the sink does not store what it accepts (only counts)
+    pub count_only: bool,
+    /// total bytes accepted (also when count_only)
+    pub total: usize,
+    /// "disk full": once `total` reaches this many bytes every write fails (0 = no cap)
+    pub cap: usize,
 }
 
 pub type SinkHandle = Rc<RefCell<SinkState>>;
@@ -383,7 +387,14 @@ impl Write for SimSink {
                 }
             }
         }
-        st.accepted.extend_from_slice(&buf[..n]);
+        if st.cap > 0 && st.total + n > st.cap {
+            st.fired_hard += 1;
+            return Err(mk_err(FK_DISK_FULL));
+        }
+        if !st.count_only {
+            st.accepted.extend_from_slice(&buf[..n]);
+        }
+        st.total += n;
         if st.fired_hard > 0 {
             st.accepted_after_fault += n;
         }
